@@ -604,7 +604,16 @@ class Models:
                 i.emits = i.emits + (em,)
             if has_token(err):
                 st.flags = st.flags | {"tok_sunk_emit"}
-            st.ev("emit", describe(err), line)
+            cv = self.deref_val(fr, vals[1]) if len(vals) > 1 else TOP
+            if isinstance(cv, tuple) and cv[0] == "enum" and cv[1] == "Option":
+                cv = "here" if cv[2] == "None" else (cv[3][0] if cv[3] else TOP)
+            if isinstance(cv, tuple) and cv[0] in ("cursor", "ckpt"):
+                at = self.desc_tag(st, cv[1], n)
+            elif cv == "here":
+                at = "here"
+            else:
+                at = "?"
+            st.ev("emit", at, describe(err), line)
             return [(st, UNIT)]
         if name == "add_alt":
             i.some = "S"
